@@ -204,6 +204,21 @@ def gen_model(rng: random.Random, *, max_demes=6, time_scale=8, gen_times=(1, 2,
                 lo, hi = overlap(a, b)
                 if hi <= lo:
                     continue
+                cuts = [t for t in grid if lo < t < hi]
+                if len(cuts) >= 2 and rng.random() < 0.12 and not occupied.get((a["name"], b["name"])):
+                    # three consecutive windows for one ordered pair with rates r1, r2, r1 (or r1, 0, r1)
+                    t2, t1 = sorted(rng.sample(cuts, 2), reverse=True)
+                    r1 = rng.choice(RATES)
+                    r2 = rng.choice([r for r in RATES if r != r1] + [0])
+                    if ingress[b["name"]] + max(r1, r2) <= 1:
+                        ingress[b["name"]] += max(r1, r2)
+                        wins = [(hi, t2, r1), (t2, t1, r2), (t1, lo, r1)]
+                        order = rng.choice([wins, wins[::-1], [wins[1], wins[0], wins[2]]])
+                        for (ws, we, rr) in order:
+                            occupied.setdefault((a["name"], b["name"]), []).append((ws, we))
+                            m.migrations.append(dict(source=a["name"], dest=b["name"], start_time=(None if ws == hi else ws),
+                                                     end_time=(None if we == lo else we), rate=rr, _eff=[(a["name"], b["name"], ws, we)]))
+                        continue
                 s, e, se, ee = pick_bounds(lo, hi)
                 if not (se > ee) or not free(a["name"], b["name"], se, ee):
                     continue
@@ -520,6 +535,12 @@ def features(m: Model) -> list:
         f.append("symmetric_migration")
     if any("source" in mg for mg in m.migrations):
         f.append("asymmetric_migration")
+    pairs = {}
+    for mg in m.migrations:
+        for (src, dst, _s, _e) in mg["_eff"]:
+            pairs[(src, dst)] = pairs.get((src, dst), 0) + 1
+    if any(v >= 3 for v in pairs.values()):
+        f.append("three_windows_one_pair")
     if m.pulses:
         f.append("pulse")
     if any(len(p["sources"]) > 1 for p in m.pulses):
